@@ -152,7 +152,7 @@ example : parse defaultEnv docSum.render = .ok docSum.toDecl := by rfl
 
 open Shroud.Gen.DeclTables in
 /-- `size_t::foo x` (was `TypeError`: `raise NotImplemented`) -/
-example : parse defaultEnv [tk .ID "size_t", tk .NAMESPACE "::", tk .ID "foo", tk .ID "x"]
+example : parse defaultEnv [tk .ID "size_t", tk .SCOPE "::", tk .ID "foo", tk .ID "x"]
     = .reject "Symbol 'foo' is not in namespace 'size_t'" := by rfl
 
 open Shroud.Gen.DeclTables in
